@@ -754,6 +754,11 @@ def classify(w: dict, c: dict, files: dict, h: dict) -> tuple[str, str]:
         return key, what
     if is_f6(w, c, files):
         return "F6:from-import-name-becomes-submodule", what
+    cw, cc = canon(w), canon(c)
+    diff = [x for f in set(cw["files"]) | set(cc["files"]) for x in set(cw["files"].get(f, [])) ^ set(cc["files"].get(f, []))]
+    if any("error: Cannot determine type of " in x for x in diff):
+        # an import cycle whose members are processed in a different order by the warm run (finding F10)
+        return "F10:import-cycle-processing-order:cannot-determine-type", what
     return h.get("key") or ("warm!=cold:" + key), what
 
 
